@@ -42,6 +42,11 @@ static double gen_real (uint64_t h, int64_t idx, const DataDesc &d, bool dbl)
 	{	static const double t [] = { 0.9, -0.9, 0.5, -0.5, 0.9, 0.25, -0.9, 0.1 } ;
 		return t [h % (sizeof (t) / sizeof (t [0]))] ;
 	}
+	if (c == "spikes")		// quiet signal with rare full-scale samples (see gen_bits)
+	{	uint64_t e = (h >> 13) % 48 ;
+		if (e == 0) return -1.0 ; if (e == 1) return 0.99996948242187500 ; if (e == 2) return (idx & 1) ? 0.5 : -0.5 ;
+		return (double) ((int64_t) ((h >> 7) & 63) - 32) / 32768.0 ;
+	}
 	// noise in [-1, 1)
 	if (dbl) return (double) (int64_t) (h >> 11) / 4503599627370496.0 - 1.0 ;
 	return (double) (float) ((double) (int32_t) (h >> 40) / 8388608.0 - 1.0) ;
@@ -65,6 +70,19 @@ uint64_t gen_bits (uint64_t key, int64_t idx, int T, const DataDesc &d, int lz)
 	{	int64_t t [] = { mn, mx, 0, -1, 1, mn + 1, mx - 1, mn, mx } ;
 		v = t [h % 9] ;
 		if (v > mx) v = mx ; if (v < mn) v = mn ;
+	}
+	else if (c == "spikes")
+	{	// quiet, compressible signal (six significant bits) with rare full-scale events: the most negative and most positive value,
+		// jumps of exactly half the range between neighbours, short runs of a constant extreme. Predictors, delta coders and
+		// entropy coders meet their boundary residuals here without the block turning incompressible.
+		uint64_t e = (h >> 13) % 48, run = mix3 (key, (uint64_t) d.stream + 77, (uint64_t) (idx / 6)) % 97 ;
+		int64_t half = w >= 3 ? (1LL << (w - 2)) : 1 ;
+		if (run == 0) v = (mix3 (key, 5, (uint64_t) (idx / 6)) & 1) ? mn : mx ;
+		else if (e == 0) v = mn ;
+		else if (e == 1) v = mx ;
+		else if (e == 2) v = (idx & 1) ? half : -half ;
+		else if (e == 3) v = mn + 1 ;
+		else v = sext (h >> 7, w < 6 ? w : 6) ;
 	}
 	else v = sext (h >> 7, w) ;
 	int64_t out = (int64_t) ((uint64_t) v << z) ;
@@ -970,7 +988,8 @@ struct Exec
 		fill_field (b->originator_reference, sizeof (b->originator_reference), st + 3, fill) ;
 		fill_field (b->origination_date, sizeof (b->origination_date), st + 4, fill) ;
 		fill_field (b->origination_time, sizeof (b->origination_time), st + 5, fill) ;
-		fill_field (b->umid, sizeof (b->umid), st + 6, fill) ;
+		// the UMID is a binary field (SMPTE 330M): arbitrary bytes, zero bytes in the middle included
+		if (fill) for (size_t k = 0 ; k < sizeof (b->umid) ; k++) b->umid [k] = (char) ((k >= 12 && k < 16) || (fill == 1 && k >= 32) ? 0 : (uint8_t) mix3 (key, (uint64_t) st + 6, k)) ;
 		b->time_reference_low = (uint32_t) mix3 (key, st, 7) ; b->time_reference_high = (uint32_t) mix3 (key, st, 8) ;
 		b->version = (short) op.geti ("version", 1) ;
 		b->loudness_value = (int16_t) mix3 (key, st, 9) ; b->loudness_range = (int16_t) mix3 (key, st, 10) ;
